@@ -10,12 +10,18 @@ EXPLANATION = (
     "sentinel `pos == start`, or monotone cursor reaching `capacity`), (W2) a `for` loop over an iterator whose own "
     "`next` is classified, or (W3) membership in the frozen table of loops that exit on every non-Valid slot, which is "
     "accepted only together with the dominating load-factor guard that guarantees such a slot exists. A probe loop that "
-    "only stops at an Empty slot or a matching key has no witness: tombstones can fill the table.")
+    "only stops at an Empty slot or a matching key has no witness: tombstones can fill the table. (R19s) The graph search "
+    "drivers (SearchImpl::search, PathSearch::search) are worklist loops: witness W4 = every iteration removes one work "
+    "item; work items are pushed only by the expansion step; the expansion step is reachable only through the clear "
+    "edge of the element's visited bit and sets that bit before pushing, so it runs at most once per element.")
 DECIDED = ["R19 every loop of the hashed collections has a termination witness (LOOP, all SCCs enumerated)",
            "R19 (cont.) the sentinel test lies on every cycle of the loop; probe loops of the frozen table stop at every non-Valid slot",
-           "R19t slot states of the hash tables are written only by insert / remove / full rehash (WHO table, shared)"]
+           "R19t slot states of the hash tables are written only by insert / remove / full rehash (WHO table, shared)",
+           "R19s search drivers are worklist loops (W4): one item removed per iteration, items added only by the expansion "
+           "of an element, which is reachable only while its visited bit is clear and sets it (PathSearch; SearchImpl via R14b)"]
 UNDECIDED = ["time bounds", "termination of graph list walks on corrupted adjacency lists (C07 territory)",
-             "loops outside collections::{multi_map,map} are classified for information only"]
+             "loops outside collections::{multi_map,map} and the search drivers are classified for information only",
+             "finiteness of one element's adjacency iteration (a corrupted list can be cyclic: C07 territory)"]
 
 FILES = ("agdb/src/collections/multi_map.rs", "agdb/src/collections/map.rs")
 PURE_GETTERS = ("::capacity", "::len")
@@ -135,6 +141,123 @@ def classify(b, comp, fa):
     return None, "exits: %s" % ", ".join(b.loc(u) for u, v in exits[:6])
 
 
+# ---------------------------------------------------------------- R19s: the search drivers (worklist loops)
+
+PS = "agdb::graph_search::path_search::PathSearch::"
+SI = "agdb::graph_search::search_impl::SearchImpl::"
+
+
+def _same_index_arg(b, t_a, t_b):
+    """both calls take `<x>.as_u64()` of the same origin as their second argument"""
+    def src(t):
+        dc = cfg.def_call(b, cfg.op_place(t["a"][1])[0]) if len(t["a"]) > 1 and cfg.op_place(t["a"][1]) else None
+        if dc and (cfg.callee(dc[1]) or "").endswith("::as_u64") and dc[1]["a"]:
+            return cfg.op_origin(b, dc[1]["a"][0])
+        return cfg.op_origin(b, t["a"][1]) if len(t["a"]) > 1 else None
+    return src(t_a) is not None and src(t_a) == src(t_b)
+
+
+def search_worklist_rule(ctx, rule="R19s"):
+    """W4 (worklist): every iteration of a search driver removes one work item, and work items are added only while an
+    element is expanded, which happens at most once per element: the expansion is reachable only when the element's
+    visited bit is clear, and sets it.  The number of iterations is then bounded by elements + pushed items."""
+    fa = ctx.facts
+    # ---- path search
+    b = ctx.anchor(rule, PS + "process_index")
+    if b:
+        vals = [(i, t) for i, t in cfg.calls(b) if common.norm(cfg.callee(t) or "").endswith("BitSet::value")]
+        ex = [(i, t) for i, t in cfg.calls(b) if common.norm(cfg.callee(t) or "") == PS + "expand"]
+        ok = len(vals) == 1 and bool(ex)
+        if ok:
+            sws = cfg.bool_switches(b, cfg.derived_locals(b, [vals[0][1]["d"][0]]))
+            ok = bool(sws) and all(cfg.find_path(b, [0], [i], removed_edges=[sw["false_edge"] for sw in sws]) is None for i, t in ex)
+            ok = ok and all(cfg.op_origin(b, t["a"][1]) == _arg_of_value(b, vals[0][1]) for i, t in ex)
+        ctx.ob(rule, "PathSearch::process_index:expand-unvisited-only", ok,
+               "expand(index) is reachable only when visited.value(index) is false" if ok else
+               "PathSearch::process_index can expand an element whose visited bit is already set (or tests another index): "
+               "on a cyclic graph the path list never drains", b.where)
+    b = ctx.anchor(rule, PS + "expand")
+    if b:
+        st = [(i, t) for i, t in cfg.calls(b) if common.norm(cfg.callee(t) or "").endswith("BitSet::set")]
+        okb, errb, unk = cfg.ret_class_blocks(b)
+        pushers = common.call_blocks_reaching(fa, b, ["std::vec::Vec::push"]) if False else \
+            [i for i, t in cfg.calls(b) if common.norm(cfg.callee(t) or "") in (PS + "expand_edge", PS + "expand_node")]
+        ok = bool(st) and cfg.find_path(b, [0], okb + unk, avoid=[i for i, t in st]) is None and \
+            cfg.find_path(b, [0], pushers, avoid=[i for i, t in st]) is None
+        if ok:
+            dc = cfg.def_call(b, cfg.op_place(st[0][1]["a"][1])[0])
+            ok = bool(dc) and (cfg.callee(dc[1]) or "").endswith("::as_u64") and cfg.op_origin(b, dc[1]["a"][0])[0] == 2
+        ctx.ob(rule, "PathSearch::expand:marks-visited", ok,
+               "visited.set(index) precedes every push of a continuation and every success return" if ok else
+               "PathSearch::expand no longer marks the expanded element visited before adding continuations", b.where)
+    for fn, callers in ((PS + "expand_node", {PS + "expand_edge"}), (PS + "expand_edge", {PS + "expand"}),
+                        (PS + "expand", {PS + "process_index"})):
+        ups = {common.norm(ub.root or ub.npath) for ub, j, tj in common.callers_of(fa, fn, "agdb")}
+        ctx.ob(rule, "only-caller:%s" % fn.split("::")[-1], ups == callers,
+               "called only from %s" % sorted(x.split("::")[-1] for x in callers) if ups == callers else
+               "`%s` (adds work items) is called from %s, expected only %s" % (fn, sorted(ups), sorted(callers)), "")
+    pushes = []
+    for pb in fa.find(r"^agdb::graph_search::path_search::PathSearch::"):
+        for i, t in cfg.calls(pb):
+            if cfg.callee(t) == "std::vec::Vec::push" and t["a"]:
+                o = cfg.op_origin(pb, t["a"][0])
+                if o and o[0] == 1 and o[1][:1] == [".paths"]:
+                    pushes.append(common.norm(pb.npath))
+    ctx.ob(rule, "PathSearch:paths-pushed-by", set(pushes) == {PS + "expand_node"},
+           "self.paths grows only in expand_node" if set(pushes) == {PS + "expand_node"} else
+           "self.paths is pushed to by %s, expected only expand_node" % sorted(set(pushes)), "")
+    b = ctx.anchor(rule, PS + "search")
+    plp = ctx.anchor(rule, PS + "process_last_path")
+    if b and plp:
+        cs = [i for i, t in cfg.calls(b) if common.norm(cfg.callee(t) or "") == PS + "process_last_path"]
+        fin = [i for i, t in cfg.calls(b) if common.norm(cfg.callee(t) or "") == PS + "is_finished"]
+        loops = [c for c in cfg.sccs(b) if cs and cs[0] in c]
+        ok = bool(loops and fin) and all(fin[0] in c for c in loops)
+        pops = [i for i, t in cfg.calls(plp) if cfg.callee(t) == "std::vec::Vec::pop"]
+        ok = ok and bool(pops) and cfg.must_pass(plp, [0], pops, cfg.return_blocks(plp))[0]
+        ctx.ob(rule, "PathSearch::search:loop", ok,
+               "every iteration tests is_finished() and pops one path (process_last_path)" if ok else
+               "PathSearch::search: an iteration no longer removes a path from the work list / tests is_finished", b.where)
+    fi = ctx.anchor(rule, PS + "is_finished")
+    if fi:
+        ie = [t for i, t in cfg.calls(fi) if (cfg.callee(t) or "").endswith("::is_empty") and
+              (cfg.op_origin(fi, t["a"][0]) or (0, []))[1][:1] == [".paths"]]
+        ctx.ob(rule, "PathSearch::is_finished", bool(ie), "finished when the path list is empty" if ie else
+               "is_finished no longer tests self.paths.is_empty()", fi.where)
+    # ---- breadth/depth-first searches: visit-once is R14b (visit_index reads-then-sets, process_index expands only
+    # unvisited elements); here: work items are added only by the algorithms' expand, called only for an unvisited element
+    exp_callers = set()
+    pushers = set()
+    for sb in fa.bodies.values():
+        if sb.crate != "agdb" or not sb.file.startswith("agdb/src/graph_search/") or "path_search" in sb.file:
+            continue
+        for i, t in cfg.calls(sb):
+            d = cfg.callee_decl(t) or ""
+            if d.endswith("SearchIterator::expand"):
+                exp_callers.add(common.norm(sb.root or sb.npath))
+            if cfg.callee(t) in ("std::collections::VecDeque::push_back", "std::collections::VecDeque::push_front", "std::vec::Vec::push"):
+                o = cfg.op_origin(sb, t["a"][0]) if t["a"] else None
+                if o and o[0] == 1 and o[1][:1] == [".stack"]:
+                    pushers.add((sb.d.get("name"), sb.d.get("impl_trait", "") or ""))
+    ctx.ob(rule, "SearchImpl:expand-callers", exp_callers == {SI + "process_unvisited_index"},
+           "SearchIterator::expand is called only from process_unvisited_index" if exp_callers == {SI + "process_unvisited_index"} else
+           "SearchIterator::expand is called from %s" % sorted(exp_callers), "")
+    bad = sorted(p for p in pushers if p[0] not in ("expand", "new"))
+    ctx.ob(rule, "SearchIterator:pushers", bool(pushers) and not bad,
+           "the work lists grow only in new() and expand()" if pushers and not bad else
+           "a search work list is pushed to outside new()/expand(): %s" % bad, "")
+    from rules import C14
+    C14.visit_once_rule(ctx)
+
+
+def _arg_of_value(b, t):
+    dc = cfg.def_call(b, cfg.op_place(t["a"][1])[0]) if len(t["a"]) > 1 and cfg.op_place(t["a"][1]) else None
+    if dc and (cfg.callee(dc[1]) or "").endswith("::as_u64") and dc[1]["a"]:
+        return cfg.op_origin(b, dc[1]["a"][0])
+    return None
+
+
+
 def run(ctx):
     fa = ctx.facts
     n = 0
@@ -197,4 +320,5 @@ def run(ctx):
     # tombstone discipline of the open-addressing tables behind every map (a table without Empty slots is also what makes the probe loops spin) (shared rule, rules/maps_common.py)
     from rules import maps_common
     maps_common.slot_state_rule(ctx)
+    search_worklist_rule(ctx)
     return 0
